@@ -38,9 +38,21 @@ func hitOf(h rendering.Hittable, ray *rendering.TemporalRay, t0, t1 float64, bad
 	return res
 }
 
+// hit2 presents rendering.Mesh.Hit2 (the list-query variant of Mesh.Hit) as a Hittable.
+type hit2 struct{ m rendering.Mesh }
+
+func (h hit2) Hit(r *rendering.TemporalRay, min, max float64, rec *rendering.HitRecord) bool {
+	return h.m.Hit2(r, min, max, rec)
+}
+
+func (h hit2) BoundingBox(startTime, endTime float64) *geometry.AABB {
+	return h.m.BoundingBox(startTime, endTime)
+}
+
 // runScene: elements are hittables; the exhaustive scan is rendering.HitList,
-// the indexes are rendering.BVHNode (NewBVHTree / NewBVHFromMesh) and
-// rendering.Tree (octree over the element boxes).
+// the indexes are rendering.BVHNode (NewBVHTree / NewBVHFromMesh),
+// rendering.Tree (octree over the element boxes) and, for triangle scenes,
+// rendering.Mesh (octree over the triangles of the whole mesh: Hit and Hit2).
 func runScene(enc *json.Encoder, c Case, seed int64) error {
 	var items []rendering.Hittable
 	var whole *modeling.Mesh
@@ -87,9 +99,15 @@ func runScene(enc *json.Encoder, c Case, seed int64) error {
 		rand.Seed(seed*1000003 + int64(c.Id)*101 + int64(rep))
 		var bvh rendering.Hittable
 		var oct rendering.Hittable
+		var msh *rendering.Mesh
 		bst := guard(func() {
 			if whole != nil {
 				bvh = rendering.NewBVHFromMesh(*whole, &idMat{id: 0})
+				// the octree-backed mesh hittable: rendering.NewMesh builds a
+				// trees.OctTree over the mesh's triangles, Mesh.Hit walks it with
+				// TraverseIntersectingRay, Mesh.Hit2 with ElementsIntersectingRay
+				m := rendering.NewMesh(*whole, &idMat{id: 0})
+				msh = &m
 			} else {
 				bvh = rendering.NewBVHTree(append([]rendering.Hittable{}, items...), 0, n, 0, 0)
 			}
@@ -101,7 +119,7 @@ func runScene(enc *json.Encoder, c Case, seed int64) error {
 		if bst != "OK" {
 			continue
 		}
-		line := batchLine{K: "hit", Case: c.Id, Fail: []int{}, Nan: []int{}, Nana: []int{}}
+		line := newBatch("hit", c.Id)
 		batch := make([]hitEntry, 0, len(c.Rays))
 		for qi, q := range c.Rays {
 			td := float64(q[8])
@@ -122,6 +140,11 @@ func runScene(enc *json.Encoder, c Case, seed int64) error {
 			e.List = hitOf(list, &ray, t0, t1, &badAns)
 			e.Bvh = hitOf(bvh, &ray, t0, t1, &badAns)
 			e.Oct = hitOf(oct, &ray, t0, t1, &badAns)
+			e.Msh, e.Msh2 = hitRes{St: "NONE"}, hitRes{St: "NONE"}
+			if msh != nil {
+				e.Msh = hitOf(*msh, &ray, t0, t1, &badAns)
+				e.Msh2 = hitOf(hit2{*msh}, &ray, t0, t1, &badAns)
+			}
 			line.note(qi, "OK", bad, badAns)
 			batch = append(batch, e)
 		}
